@@ -67,9 +67,11 @@ class Community(Attribute):
         :param value:
         """
         community_hex = b''
+        # the well-known names are not all upper case (ROUTE_FILTER_v4 ...)
+        well_known = dict((name.upper(), num) for (name, num) in bgp_cons.WELL_KNOW_COMMUNITY_STR_2_INT.items())
         for community in value:
-            if community.upper() in bgp_cons.WELL_KNOW_COMMUNITY_STR_2_INT:
-                value = bgp_cons.WELL_KNOW_COMMUNITY_STR_2_INT[community.upper()]
+            if community.upper() in well_known:
+                value = well_known[community.upper()]
                 community_hex += struct.pack('!I', value)
             else:
                 try:
